@@ -6,6 +6,8 @@
 package execution
 
 import (
+	"fmt"
+
 	"github.com/prometheus/prometheus/promql/parser"
 
 	"github.com/thanos-community/promql-engine/execution/model"
@@ -27,9 +29,19 @@ func verifWrap(op model.VectorOperator, expr parser.Expr, opts *query.Options) m
 	if f == nil || op == nil {
 		return op
 	}
-	s := "<shard>"
-	if expr != nil {
-		s = expr.String()
+	return f(op, verifExprString(expr), opts)
+}
+
+// verifExprString never panics: after plan rewrites some parser nodes hold
+// logical-plan nodes their own String method does not expect.
+func verifExprString(expr parser.Expr) (s string) {
+	if expr == nil {
+		return "<shard>"
 	}
-	return f(op, s, opts)
+	defer func() {
+		if recover() != nil {
+			s = fmt.Sprintf("<%T>", expr)
+		}
+	}()
+	return expr.String()
 }
